@@ -2,6 +2,7 @@ package sx
 
 import (
 	"bufio"
+	"context"
 	"os"
 	"runtime"
 	"fmt"
@@ -30,6 +31,7 @@ type Solver struct {
 	Slow    func(d time.Duration, res string)
 	RawModel func(string)
 	LastModel string
+	Portfolio map[string]int
 }
 
 func NewSolver(bin string, args ...string) (*Solver, error) {
@@ -46,7 +48,7 @@ func NewSolver(bin string, args ...string) (*Solver, error) {
 	if err := cmd.Start(); err != nil {
 		return nil, err
 	}
-	s := &Solver{cmd: cmd, inc: in, in: bufio.NewWriterSize(in, 1<<20), out: bufio.NewReaderSize(out, 1<<20), P: NewPrinter()}
+	s := &Solver{cmd: cmd, inc: in, in: bufio.NewWriterSize(in, 1<<20), out: bufio.NewReaderSize(out, 1<<20), P: NewPrinter(), Portfolio: map[string]int{}}
 	return s, nil
 }
 
@@ -243,57 +245,91 @@ func parseModel(s string) map[string]uint64 {
 
 // CheckOneShot decides the conjunction of asserts from scratch (reset), which lets z3 use
 // its non-incremental tactics (notably nlsat for nonlinear real arithmetic).
+// CheckOneShot decides the conjunction of asserts from scratch (int/real mode). A small portfolio is
+// tried in turn until one member gives a definite answer: z3 5.1 default strategy (short budget), z3 5.1
+// with an explicit nlsat tactic, cvc5, z3 4.8.12 — measured in this sandbox, each decides queries in
+// milliseconds on which another one times out.
 func (s *Solver) CheckOneShot(asserts []*Term, wantModel bool, timeoutMs int) (string, map[string]uint64) {
 	t0 := time.Now()
 	defer func() { s.Time += time.Since(t0) }()
 	s.Queries++
-	var capture strings.Builder
-	dumpDir := os.Getenv("GOSYM_DUMP_UNKNOWN")
-	if dumpDir != "" {
-		prev := s.Log
-		s.Log = &capture
-		defer func() { s.Log = prev }()
+	if timeoutMs <= 0 {
+		timeoutMs = 60000
 	}
-	s.send("(reset)\n")
-	s.P = NewPrinter()
-	if timeoutMs > 0 {
-		s.send(fmt.Sprintf("(set-option :timeout %d)\n", timeoutMs))
-	}
+	// build the script once
+	p := NewPrinter()
+	var body strings.Builder
 	for _, a := range asserts {
-		s.Assert(a)
+		var sb strings.Builder
+		r := p.Ref(a, &sb)
+		body.WriteString(sb.String())
+		body.WriteString("(assert " + r + ")\n")
 	}
-	s.send("(check-sat)\n")
-	res := s.readLine()
-	for strings.HasPrefix(res, "(error") || res == "" || res == "success" {
-		if strings.HasPrefix(res, "(error") {
-			s.Unknown++
-			return "unknown:" + res, nil
+	names := make([]string, 0, len(p.vars))
+	for n := range p.vars {
+		names = append(names, n)
+	}
+	sort.Strings(names)
+	getModel := ""
+	if wantModel && len(names) > 0 {
+		getModel = "(get-value (" + strings.Join(names, " ") + "))\n"
+	}
+	first := timeoutMs / 6
+	if first < 3000 {
+		first = 3000
+	}
+	type member struct {
+		name  string
+		bin   string
+		args  []string
+		pre   string
+		check string
+		ms    int
+	}
+	members := []member{
+		{"z3-5.1", "z3-new", []string{"-in"}, "", "(check-sat)\n", first},
+		{"z3-5.1-nlsat", "z3-new", []string{"-in"}, "", "(check-sat-using (then simplify purify-arith (or-else qfnra-nlsat smt)))\n", timeoutMs / 3},
+		{"cvc5", "cvc5", []string{"--lang=smt2", "--produce-models"}, "(set-logic ALL)\n", "(check-sat)\n", timeoutMs / 3},
+		{"z3-4.8", "z3", []string{"-in"}, "", "(check-sat)\n", timeoutMs / 3},
+	}
+	res := "unknown"
+	for _, m := range members {
+		var script strings.Builder
+		script.WriteString(m.pre)
+		if strings.HasPrefix(m.bin, "z3") {
+			fmt.Fprintf(&script, "(set-option :timeout %d)\n", m.ms)
 		}
-		res = s.readLine()
+		script.WriteString(body.String())
+		script.WriteString(m.check)
+		script.WriteString(getModel)
+		args := m.args
+		if m.bin == "cvc5" {
+			args = append(append([]string{}, args...), fmt.Sprintf("--tlimit=%d", m.ms))
+		}
+		out := runSolverOnce(m.bin, args, script.String(), time.Duration(m.ms+5000)*time.Millisecond)
+		line, rest, _ := strings.Cut(strings.TrimSpace(out), "\n")
+		line = strings.TrimSpace(line)
+		if line == "sat" || line == "unsat" {
+			res = line
+			s.LastModel = rest
+			if len(s.LastModel) > 4000 {
+				s.LastModel = s.LastModel[:4000]
+			}
+			s.Portfolio[m.name]++
+			break
+		}
+	}
+	if dumpDir := os.Getenv("GOSYM_DUMP_UNKNOWN"); dumpDir != "" && res == "unknown" {
+		os.WriteFile(fmt.Sprintf("%s/unknown-%d-%d.smt2", dumpDir, os.Getpid(), s.Queries), []byte(body.String()+"(check-sat)\n"), 0o644)
 	}
 	if d := time.Since(t0); d > 2*time.Second && s.Slow != nil {
 		s.Slow(d, res)
 	}
-	if dumpDir != "" && res != "sat" && res != "unsat" {
-		os.WriteFile(fmt.Sprintf("%s/unknown-%d-%d.smt2", dumpDir, os.Getpid(), s.Queries), []byte(capture.String()), 0o644)
-	}
 	switch res {
 	case "sat":
 		s.Sat++
-		if wantModel {
-			names := make([]string, 0, len(s.P.vars))
-			for n := range s.P.vars {
-				names = append(names, n)
-			}
-			sort.Strings(names)
-			s.send("(get-value (" + strings.Join(names, " ") + "))\n")
-			s.LastModel = s.readSexp()
-			if len(s.LastModel) > 4000 {
-				s.LastModel = s.LastModel[:4000]
-			}
-			if s.RawModel != nil {
-				s.RawModel(s.LastModel)
-			}
+		if s.RawModel != nil {
+			s.RawModel(s.LastModel)
 		}
 	case "unsat":
 		s.Unsat++
@@ -301,6 +337,21 @@ func (s *Solver) CheckOneShot(asserts []*Term, wantModel bool, timeoutMs int) (s
 		s.Unknown++
 	}
 	return res, nil
+}
+
+func runSolverOnce(bin string, args []string, script string, limit time.Duration) string {
+	ctx, cancel := context.WithTimeout(context.Background(), limit)
+	defer cancel()
+	cmd := exec.CommandContext(ctx, bin, args...)
+	cmd.Stdin = strings.NewReader(script)
+	out, _ := cmd.Output()
+	// (an "unsat" answer is followed by an error line for the get-value request: that is fine;
+	// an error before the verdict makes the member's answer unusable)
+	first, _, _ := strings.Cut(strings.TrimSpace(string(out)), "\n")
+	if strings.Contains(first, "(error") {
+		return "unknown"
+	}
+	return string(out)
 }
 
 // CheckValues decides the current assertion stack and, when sat, returns the model of all
